@@ -140,9 +140,13 @@ def prepare(ch):
                 # merge promises the stdlib's order for sorted inputs only: plain ascending order everywhere, and the
                 # underlying iterator of the scope is sorted too
                 spec.fns = [gt.fn("keyval", 0) if ch.chance(1, 2) else None]  # (a key that keeps that order)
-                spec.p["reverse"] = False
+                # one direction per block (the underlying iterator is sorted that way as well)
+                if not hasattr(prep, "merge_reverse"):
+                    prep.merge_reverse = ch.chance(1, 3)
+                spec.p["reverse"] = prep.merge_reverse
                 for p_ in spec.srcs:
-                    p_.items = sorted([i for i in p_.items if type(i).__name__ == "Item"], key=lambda i: i.key)
+                    p_.items = sorted([i for i in p_.items if type(i).__name__ == "Item"], key=lambda i: i.key,
+                                      reverse=prep.merge_reverse)
                 prep.sort_underlying = True
             if any(f is not None for f in spec.fns) and ch.chance(1, 3):
                 # the tool's callable fails (with a TypeError) at one of its first calls: the error is handled inside the
@@ -167,7 +171,7 @@ def prepare(ch):
             ops.append(("pull", 1))
     prep.ops = ops
     if getattr(prep, "sort_underlying", False):
-        prep.src.items.sort(key=lambda i: i.key)
+        prep.src.items.sort(key=lambda i: i.key, reverse=getattr(prep, "merge_reverse", False))
     # dry run (fault free) to learn the number of suspension points of the block
     st = Streams(Chooser(replay=[]), Chooser(replay=[0]), Chooser(replay=[]))
     sim, res = run_block(prep, st, 0, 0, interrupts=0)
